@@ -27,7 +27,8 @@ class ExtractedAbbreviation:
                 self.start == other.start and \
                 self.end == other.end
 
-        raise NotImplementedError
+        # NB: let Python compare with objects of other types: `extract(...) == None`
+        return NotImplemented
 
     def __repr__(self):
         return repr({
